@@ -2,7 +2,8 @@
 
 Space: trigger name {exec, eval, locals, globals, vars} x form {call, bare reference, attribute base} x 25 syntactic positions, and
 star imports in 5 positions, inside an enriched program (mc/gen/taint.py); plus every G_scope program of the tier with a trigger appended
-to the module; x full(6) over {rename_locals, rename_globals, hoist_literals, remove_builtin_exception_brackets, convert_posargs_to_args,
+to the module; the Python 2 exec statement (5 forms) and the name triggers in 19 statement positions under every other installed
+interpreter (mc/gen/taint2.py, portable worker); x full(6) over {rename_locals, rename_globals, hoist_literals, remove_builtin_exception_brackets, convert_posargs_to_args,
 remove_literal_statements} + dev(1) on the remaining switches, + preserve lists.
 Oracle: with G = {rename_locals, rename_globals, hoist_literals}: minify(P, O) must be textually identical to minify(P, O - G) (these three
 switches are the only ones that respell or introduce names, so identical text <=> every identifier unchanged at the same position and every
@@ -21,7 +22,7 @@ RULE = ('cases: (trigger name, form, position) x option set, and (G_scope progra
         'options (so the freeze is what kept it unchanged); counted once per distinct (program, option set).')
 ASSUMPTIONS = [
     'the premise is checked with the independent resolver: the trigger name must resolve to builtin (never shadowed in these programs)',
-    'Python 2 exec statements are outside this check (driver is 3.12)',
+    'the Python 2 exec statement (and the name triggers under every other installed interpreter) is reached through the portable worker: textual freeze + stdout/exception comparison, no independent resolver there (a program that shadowed a trigger name is not in that alphabet)',
 ]
 G = frozenset(['rename_locals', 'rename_globals', 'hoist_literals'])
 GROUP6 = ['rename_locals', 'rename_globals', 'hoist_literals', 'remove_builtin_exception_brackets', 'convert_posargs_to_args', 'remove_literal_statements']
@@ -39,11 +40,14 @@ def option_sets(tier):
 
 
 def bound(tier):
-    return {'option_sets': len(option_sets(tier)), 'trigger_programs': 5 * 3 * 25 + 5, 'scope_programs': 'G_scope tier %s + module-level trigger' % tier}
+    return {'option_sets': len(option_sets(tier)), 'trigger_programs': 5 * 3 * 25 + 5, 'scope_programs': 'G_scope tier %s + module-level trigger' % tier,
+            'portable_programs': '11 triggers (5 exec-statement forms) x 19 positions x 14 option sets per installed interpreter'}
 
 
 def tasks(tier):
-    return [('taint', tier, i, 16) for i in range(16)] + [('scope', tier, i, NPARTS) for i in range(NPARTS)]
+    from mc.checks import c02
+    return ([('taint', tier, i, 16) for i in range(16)] + [('scope', tier, i, NPARTS) for i in range(NPARTS)] +
+            [('interp', v, exe) for v, exe in c02.interpreters(tier)])
 
 
 def control_source(src):
@@ -131,6 +135,8 @@ def violation_for(src, on, ref, ctrl, extra_kw=None):
 
 def run_task(task):
     res = core.Result()
+    if task[0] == 'interp':
+        return run_interp(task, res)
     kind, tier, part, nparts = task
     sets = option_sets(tier)
     if kind == 'taint':
@@ -154,7 +160,31 @@ def run_task(task):
     return res
 
 
+def run_interp(task, res):
+    from mc.checks import c02
+    from mc.gen import taint2
+    _, ver, exe = task
+    out = c02.portable(taint2.cases(), exe, 'taint')
+    res.count('evaluations', out['evaluations'])
+    res.count('distinct_nontrivial', out['nontrivial'])
+    res.count('interp_%s_programs' % ver, out['checked'])
+    res.count('interp_%s_not_in_language' % ver, out['skipped'])
+    if c02.pyver(ver) == '2.7' and out['checked'] < 150:
+        raise core.HarnessError('exec-statement programs do not compile under 2.7 any more (%d checked)' % out['checked'])
+    for v in out['violations']:
+        res.violation('py%s:%s|%s' % (c02.pyver(ver), v['sig'], v['label']), {'label': v['label'], 'source': v['source'], 'interpreter': exe}, v['detail'])
+    return res
+
+
 def replay(case):
+    if 'interpreter' in case:
+        from mc.checks import c02
+        from mc.gen import taint2
+        recs = [c for c in taint2.cases() if c[0] == case['label']]
+        out = c02.portable(recs, case['interpreter'], 'taint')
+        for v in out['violations']:
+            return {'signature': 'py%s:%s|%s' % (c02.pyver(out['python']), v['sig'], v['label']), 'detail': v['detail']}
+        return None
     src = case['source']
     code = scope_engine.try_compile(src)
     ref = observe.run(code) if code else None
